@@ -511,6 +511,9 @@ func generateGhost(p *packages.Package, funcs map[string]*ssa.Function, cs *Cont
 		for i, c := range fc.Requires {
 			emit(c, fmt.Sprintf("zz_req_%s_%d", mn, i), append(append([]ghostParam{}, base...), letPs...), "bool", target, false)
 		}
+		for i, c := range fc.Relies {
+			emit(c, fmt.Sprintf("zz_rely_%s_%d", mn, i), append([]ghostParam{}, base...), "bool", target, false)
+		}
 		for i, c := range fc.Ensures {
 			ps := append(append(append([]ghostParam{}, base...), letPs...), resPs...)
 			emit(c, fmt.Sprintf("zz_ens_%s_%d", mn, i), ps, "bool", target, false)
